@@ -19,13 +19,13 @@ Proof. exact push_full_drops_newest. Qed.
 Print Assumptions C10_push_full_drops_newest.
 
 Theorem C10_push_below_capacity_keeps : forall (E : Type) (e : E) (s : sub E),
-  length (s_queue s) < s_cap s -> s_queue (push e s) = s_queue s ++ [e] /\ s_drops (push e s) = s_drops s.
+  s_closed s = None -> length (s_queue s) < s_cap s -> s_queue (push e s) = s_queue s ++ [e] /\ s_drops (push e s) = s_drops s.
 Proof. exact push_below_capacity_keeps. Qed.
 Print Assumptions C10_push_below_capacity_keeps.
 
 (* whatever was dropped, a consumer receives an in-order subsequence *)
 Theorem C10_stalled_receives_subsequence : forall (E : Type) (l : list (pact E)) (s : sub E),
-  In s (p_subs (prun l)) -> subseq (s_passed s ++ s_queue s) (expected_suffix (s_from s) (p_seen (prun l))).
+  In s (p_subs (prun l)) -> subseq (s_passed s ++ s_queue s) (expected_suffix (s_from s) (visible E (p_seen (prun l)) s)).
 Proof. exact stalled_receives_subsequence. Qed.
 Print Assumptions C10_stalled_receives_subsequence.
 
@@ -38,7 +38,7 @@ Print Assumptions C10_never_reading_gets_first_cap.
 
 (* healthy siblings keep the exact-suffix guarantee of C05 *)
 Theorem C10_healthy_sibling_sees_everything : forall (E : Type) (l : list (pact E)) (s : sub E),
-  In s (p_subs (prun l)) -> s_drops s = 0 ->
+  In s (p_subs (prun l)) -> s_drops s = 0 -> s_closed s = None ->
   s_passed s ++ s_queue s = expected_suffix (s_from s) (p_seen (prun l)).
-Proof. exact subscriber_sees_exact_suffix. Qed.
+Proof. exact open_subscriber_sees_exact_suffix. Qed.
 Print Assumptions C10_healthy_sibling_sees_everything.
